@@ -51,6 +51,14 @@ Theorem C16_loss_path_matches_source : loss_path_ok source_shapes = true.
 Proof. vm_compute. reflexivity. Qed.
 Print Assumptions C16_loss_path_matches_source.
 
+(* The calls inside the disconnection listeners that can raise (remove_listener, del d[k],
+   set_result / set_exception) are exactly the reviewed ones (each argued safe next to
+   [expected_raising_calls]); a new one, or one that moved, needs a new review. *)
+Theorem C16_raising_calls_match_source :
+  shapes_eqb (raising_calls source_shapes) expected_raising_calls = true.
+Proof. vm_compute. reflexivity. Qed.
+Print Assumptions C16_raising_calls_match_source.
+
 Theorem C16_model_table_cleaned : all_cleaned model_registries = true.
 Proof. exact model_registries_cleaned. Qed.
 Print Assumptions C16_model_table_cleaned.
@@ -178,6 +186,24 @@ Theorem C16_unclean_registry_refuted :
   quiescent s = true /\ mem 1 (dev s) = false /\ In ("x.Leaky.registry"%string, (1, 0)) (regs s).
 Proof. exact stale_refuted. Qed.
 Print Assumptions C16_unclean_registry_refuted.
+
+(* The fan-out is one synchronous call chain in which a listener may raise.  If none does,
+   the chain that may fail IS the fan-out of the theorems above ... *)
+Theorem C16_no_raise_fanout_complete : forall tbl raises h s,
+  (forall hk, In hk fanout_order -> raises hk = false) -> fanout_raising tbl raises h s = fanout tbl h s.
+Proof. exact fanout_no_raise. Qed.
+Print Assumptions C16_no_raise_fanout_complete.
+
+(* ... and the no-raise condition is necessary: a raising Connection 'disconnection' listener
+   leaves the later registries populated, host and device in disagreement, disconnect() pending *)
+Theorem C16_raising_listener_refuted :
+  let s := fanout_raising model_registries (hook_eqb HkConnListeners) 1 (run model_registries raising_prefix init) in
+  dev s = [] /\ host s = [1] /\
+  map fst (regs s) = ["smp.Manager.sessions"; "gatt_server.Server.subscribers";
+                      "l2cap.ChannelManager.channels"; "host.DataPacketQueue._connection_state"]%string /\
+  map (fun x => (w_id x, st_code (w_st x))) (waiters s) = [(4, 0)].
+Proof. exact raising_listener_refuted. Qed.
+Print Assumptions C16_raising_listener_refuted.
 
 (* [settled], not only [quiescent]: a task that has not run yet keeps its call pending
    (state code 2) on a closed connection *)
